@@ -108,13 +108,19 @@ def instance(job, cfg):
     try:
         import scenic
         from scenic.core.distributions import RejectionException
+        from scenic.core.errors import InvalidScenarioError
         from scenic.core.sample_checking import WeightedAcceptanceChecker
 
         costs = cfg["clock"]
         clock = seams.SimClock(lambda n: costs[n % len(costs)])
         out = []
         with seams.patched_clock(clock):
-            scenario = scenic.scenarioFromString(job["src"], scenario=job["top"], mode2D=job["mode2D"])
+            try:
+                scenario = scenic.scenarioFromString(job["src"], scenario=job["top"], mode2D=job["mode2D"])
+            except InvalidScenarioError as e:
+                # e.g. two fixed objects that overlap: refused at compile time; that outcome
+                # (and its message) has to be the same in every instance like any other
+                return ["compile-refused:" + type(e).__name__ + ":" + str(e)[:200]]
             if cfg["burn"]:
                 class Burning(WeightedAcceptanceChecker):
                     def checkRequirements(self, sample):
